@@ -55,7 +55,12 @@ RULE = (
     "use_deep_copy=True some of them modify their input arrays in place (x*=2, x+=1, x/=4), the interleaving is owned by "
     "events (a drawn permutation of turns: a discipline touches its inputs only after the previous turn has finished), "
     "oracle = every output equals the discipline run alone on a fresh copy (with use_deep_copy=False inputs are read-only: "
-    "no writer is drawn). "
+    "no writer is drawn); exec_history: 2-3 executions of ONE DiscParallelExecution / MDOParallelChain (threads and "
+    "processes) whose disciplines have an optional input that is given at one step and omitted at the next, after every "
+    "step each discipline's io.data and io.get_input_data() (names and values) equal those of its sequential twin with the "
+    "same history; chain_lin_history: MDOParallelChain whose members read different inputs, linearized at two points, after "
+    "each the members' jac, their own linearization and their cache entry must equal a fresh sequential twin's Jacobian "
+    "(same rows, same blocks) and the chain Jacobian the closed form. "
     "Non-trivial = schedule whose realised completion order differs from the submission order (fault cases: with "
     ">=1 failing and >=1 succeeding task); derived without gates: >=2 workers and >=2 tasks with unequal delays (DOE "
     "fault part: >=1 raising sample; cache: >=2 tasks with the same input; chain_inplace: a writer whose turn precedes "
@@ -537,14 +542,17 @@ def run(ctx):
     # ---- derived equivalences (each with its own drive: one defect does not hide the others).  The dimensions that
     # matter are cycled deterministically; Hypothesis only draws the rest (its small runs are too clustered).
     backs = ("thread", "process")
-    _variants(ctx, "disc", case_disc, 64, 512, [
+    _variants(ctx, "disc", case_disc, 50, 512, [
         disc_payloads(mode, back, failures=fl) for mode in ("exec", "lin") for back in backs for fl in (False, True)
     ] + [disc_payloads(mode, "process", one_disc=True) for mode in ("exec", "lin")])
     _variants(ctx, "chain", case_chain, 24, 160, [chain_payloads(back) for back in backs])
+    _variants(ctx, "exec_history", case_exec_history, 32, 400,
+              [exec_history_payloads(target, back) for target in ("executor", "chain") for back in backs])
+    _variants(ctx, "chain_lin_history", case_chain_lin_history, 20, 300, [chain_lin_history_payloads(back) for back in backs])
     _variants(ctx, "chain_inplace", case_chain_inplace, 80, 600, [inplace_payloads(n, deep) for n in (2, 3) for deep in (True, True, False)][:5])
     _variants(ctx, "doe", case_doe, 32, 200, [doe_payloads(r, j) for r in (False, True) for j in (False, True)])
     _timed(ctx, "fd", lambda: ctx.drive("fd", fd_payloads(), case_fd, quick=20, thorough=120))
-    _variants(ctx, "cache", case_cache, 40, 240, [cache_payloads(back, lin) for back in backs for lin in (False, True)])
+    _variants(ctx, "cache", case_cache, 32, 240, [cache_payloads(back, lin) for back in backs for lin in (False, True)])
 
 
 def _variants(ctx, name, case_fn, quick, thorough, strategies):
@@ -586,9 +594,9 @@ def poly_jac(out, name, sizes, data):
 
 
 @st.composite
-def disc_specs(draw, index: int, sizes: dict, allow_fail: bool):
+def disc_specs(draw, index: int, sizes: dict, allow_fail: bool, ins=None):
     names = sorted(sizes)
-    ins = draw(st.lists(st.sampled_from(names), min_size=1, max_size=len(names), unique=True))
+    ins = ins or draw(st.lists(st.sampled_from(names), min_size=1, max_size=len(names), unique=True))
     outs = []
     for j in range(draw(st.integers(1, 2))):
         size = draw(st.integers(1, 2))
@@ -1262,3 +1270,184 @@ def case_chain_inplace(p, ctx):
 
 
 ORACLES["chain_inplace"] = case_chain_inplace
+
+
+# --------------------------------------------------------------------------- multi-step histories on one executor / chain
+OPT = "opt"  # an optional input (not required, no default value) shared by the disciplines
+
+_OPT_CLASS = []
+
+
+def _opt_disc_class():
+    if _OPT_CLASS:
+        return _OPT_CLASS[0]
+    base = _poly_disc_class()
+
+    class OptDisc(base):
+        """PolyDisc with an optional input: when given, opt[0] is added to every output component."""
+
+        def __init__(self, spec, sizes, name):
+            super().__init__(spec, sizes, name)
+            self.io.input_grammar.update_from_data({OPT: np.zeros(1)})
+            self.io.input_grammar.required_names.remove(OPT)
+
+        def _run(self, input_data):
+            out = super()._run(input_data)
+            opt = input_data.get(OPT)
+            if opt is not None:
+                out = {k: v + opt[0] for k, v in out.items()}
+            return out
+
+    _OPT_CLASS.append(OptDisc)
+    return OptDisc
+
+
+def _same_data(got, ref):
+    """Names AND values of two discipline data (bitwise: same code run in parallel and sequentially)."""
+    if sorted(got) != sorted(ref):
+        return False
+    return all(_same(got[k], ref[k], exact=True) for k in ref)
+
+
+@st.composite
+def exec_history_payloads(draw, target: str, back: str):
+    sizes = {f"x{i}": draw(st.integers(1, 2)) for i in range(draw(st.integers(1, 2)))}
+    n = draw(st.integers(2, 4))
+    specs = [draw(disc_specs(k, sizes, allow_fail=False)) for k in range(n)]
+    n_steps = draw(st.integers(2, 3))
+    steps = []
+    for t in range(n_steps):
+        row = []
+        for _ in range(n if target == "executor" else 1):
+            values = _input_values(draw, sizes)
+            values[OPT] = [draw(st.integers(1, 6)) * 0.5] if draw(st.booleans()) else None
+            row.append(values)
+        steps.append(row)
+    # at least one discipline gets the optional input at one step and not at the next one
+    j, t = draw(st.integers(0, len(steps[0]) - 1)), draw(st.integers(0, n_steps - 2))
+    steps[t][j][OPT] = steps[t][j][OPT] or [1.5]
+    steps[t + 1][j][OPT] = None
+    return {"target": target, "back": back, "w": draw(st.integers(2, 4)), "deep": draw(st.booleans()), "sizes": sizes, "discs": specs,
+            "steps": steps}
+
+
+def case_exec_history(p, ctx):
+    """Several executions of ONE DiscParallelExecution / MDOParallelChain: the disciplines hold the sequential data after each."""
+    from gemseo.core.chains.parallel_chain import MDOParallelChain
+    from gemseo.core.parallel_execution.disc_parallel_execution import DiscParallelExecution
+
+    sizes, specs, use_threading = p["sizes"], p["discs"], p["back"] == "thread"
+    n = len(specs)
+    cls = _opt_disc_class()
+    discs = [cls(sp, sizes, f"D{k}") for k, sp in enumerate(specs)]
+    twins = [cls(sp, sizes, f"D{k}") for k, sp in enumerate(specs)]
+    is_chain = p["target"] == "chain"
+    dropped = False
+    with _Quiet(use_threading):
+        if is_chain:
+            par = MDOParallelChain(discs, use_threading=use_threading, n_processes=p["w"], use_deep_copy=p["deep"])
+        else:
+            par = DiscParallelExecution(discs, n_processes=p["w"], use_threading=use_threading)
+        previous = None
+        for t, row in enumerate(p["steps"]):
+            inputs = [{k: np.array(v, dtype=float) for k, v in values.items() if v is not None} for values in row]
+            if is_chain:
+                inputs = inputs * n
+                data = _run_with_timeout(lambda: par.execute({k: v.copy() for k, v in inputs[0].items()}), "MDOParallelChain.execute", ctx)
+            else:
+                out = _run_with_timeout(lambda: par.execute([{k: v.copy() for k, v in i.items()} for i in inputs]), "DiscParallelExecution.execute", ctx)
+                ctx.check(isinstance(out, list) and len(out) == n and all(o is not None for o in out), "history_positional", f"step {t}: results {out!r}")
+            if previous is not None and any(OPT in a and OPT not in b for a, b in zip(previous, inputs)):
+                dropped = True
+            previous = inputs
+            for k, (disc, twin, spec) in enumerate(zip(discs, twins, specs)):
+                twin.execute({k2: v.copy() for k2, v in inputs[k].items()})
+                ref = {o["name"]: poly_value(o, sizes, inputs[k]) + (inputs[k][OPT][0] if OPT in inputs[k] else 0.0) for o in spec["outs"]}
+                for name, value in ref.items():
+                    holder = data if is_chain else out[k]
+                    ctx.check(name in holder and _same(holder[name], value, exact=False), "history_positional",
+                              f"step {t}: {name} returned for D{k} differs from the closed form", got=holder.get(name), ref=value)
+                ctx.check(_same_data(disc.io.data, twin.io.data), "history_discipline_data",
+                          f"step {t}: after the parallel execution D{k}.io.data holds {sorted(disc.io.data)} = "
+                          f"{[np.asarray(v).tolist() for _, v in sorted(disc.io.data.items())]}; its sequential twin executed on the same inputs holds "
+                          f"{sorted(twin.io.data)} = {[np.asarray(v).tolist() for _, v in sorted(twin.io.data.items())]}")
+                ctx.check(_same_data(disc.io.get_input_data(), twin.io.get_input_data()), "history_discipline_data",
+                          f"step {t}: D{k}.io.get_input_data() has names {sorted(disc.io.get_input_data())}, sequential twin {sorted(twin.io.get_input_data())}")
+    ctx.cls(f"history:{p['target']}:{p['back']}", f"history:steps={len(p['steps'])}")
+    if dropped:
+        ctx.nontriv(("exec_history", p))
+        ctx.cls("history:optional_input_given_then_omitted")
+    ctx.sample({"oracle": "exec_history", "target": p["target"], "back": p["back"], "opt": [[v[OPT] is not None for v in row] for row in p["steps"]]})
+
+
+@st.composite
+def chain_lin_history_payloads(draw, back: str):
+    names = [f"x{i}" for i in range(draw(st.integers(2, 3)))]
+    sizes = {nm: draw(st.integers(1, 2)) for nm in names}
+    n = draw(st.integers(2, 4))
+    # members with different inputs: the first two read disjoint inputs, the others anything
+    forced = [[names[0]], [names[1]]]
+    specs = [draw(disc_specs(k, sizes, allow_fail=False, ins=forced[k] if k < 2 else None)) for k in range(n)]
+    order = draw(st.permutations(list(range(n))))
+    specs = [specs[i] for i in order]
+    return {"back": back, "w": draw(st.sampled_from([None, 2, 3])), "deep": draw(st.booleans()), "sizes": sizes, "discs": specs,
+            "points": [_input_values(draw, sizes), _input_values(draw, sizes)], "all_jacobians": draw(st.booleans())}
+
+
+def _jac_equal(got, ref, ctx, sub, what):
+    """Same outputs, same inputs per output, same blocks (bitwise) as the sequential twin."""
+    ctx.check(isinstance(got, dict) and sorted(got) == sorted(ref), sub, f"{what}: rows {sorted(got) if isinstance(got, dict) else got!r}, "
+              f"sequential twin {sorted(ref)}")
+    for o, row in ref.items():
+        ctx.check(sorted(got[o]) == sorted(row), sub, f"{what}: d{o}/d. has blocks w.r.t. {sorted(got[o])}, the sequential twin w.r.t. {sorted(row)}")
+        for i, block in row.items():
+            ctx.check(_same(_dense(got[o][i]), _dense(block), exact=True), sub, f"{what}: block d{o}/d{i} differs from the sequential twin",
+                      got=_dense(got[o][i]), ref=_dense(block))
+
+
+def case_chain_lin_history(p, ctx):
+    """chain.linearize; members inspected and linearized on their own; chain.linearize at another point."""
+    from gemseo.core.chains.parallel_chain import MDOParallelChain
+
+    sizes, specs, use_threading = p["sizes"], p["discs"], p["back"] == "thread"
+    used = sorted({nm for sp in specs for nm in sp["ins"]})
+    members = _build_discs(specs, sizes)
+    with _Quiet(use_threading):
+        chain = MDOParallelChain(members, use_threading=use_threading, n_processes=p["w"], use_deep_copy=p["deep"])
+        if not p["all_jacobians"]:
+            chain.add_differentiated_inputs()
+            chain.add_differentiated_outputs()
+        for step, point in enumerate(p["points"]):
+            x = {k: v for k, v in _arrays(point).items() if k in used}
+            jac = _run_with_timeout(lambda: chain.linearize({k: v.copy() for k, v in x.items()}, compute_all_jacobians=p["all_jacobians"]),
+                                    "MDOParallelChain.linearize", ctx)
+            twins = _build_discs(specs, sizes)  # fresh sequential counterparts, never seen by a chain
+            for k, (member, twin, spec) in enumerate(zip(members, twins, specs)):
+                own = {nm: x[nm].copy() for nm in spec["ins"]}
+                ref = twin.linearize(own, compute_all_jacobians=True)
+                for o in spec["outs"]:
+                    ctx.check(o["name"] in jac, "history_chain_jacobian", f"step {step}: no row {o['name']} in the chain Jacobian")
+                    for nm in used:
+                        ctx.check(nm in jac[o["name"]], "history_chain_jacobian", f"step {step}: no block d{o['name']}/d{nm} in the chain Jacobian")
+                        ctx.check(_same(_dense(jac[o["name"]][nm]), poly_jac(o, nm, sizes, x), exact=False), "history_chain_jacobian",
+                                  f"step {step}: d{o['name']}/d{nm} of the chain differs from the closed form", got=_dense(jac[o["name"]][nm]))
+                # the chain must leave its members as their own (sequential) linearization does
+                _jac_equal(member.jac, ref, ctx, "history_member_jacobian", f"step {step}: {member.name}.jac after the linearization of the chain")
+                alone = member.linearize({nm: v.copy() for nm, v in own.items()}, compute_all_jacobians=True)
+                _jac_equal(alone, ref, ctx, "history_member_jacobian", f"step {step}: {member.name} linearized on its own after the chain")
+                if member.cache is not None:
+                    cached = member.cache[own].jacobian
+                    if cached:
+                        _jac_equal(cached, ref, ctx, "history_member_cache", f"step {step}: Jacobian in the cache of {member.name}")
+            # the chain Jacobian itself was not altered by what happened to the members
+            for spec in specs:
+                for o in spec["outs"]:
+                    for nm in used:
+                        ctx.check(_same(_dense(chain.jac[o["name"]][nm]), poly_jac(o, nm, sizes, x), exact=False), "history_chain_jacobian",
+                                  f"step {step}: chain.jac[{o['name']}][{nm}] changed after the members were linearized on their own")
+    ctx.cls(f"lin_history:{p['back']}", "lin_history:compute_all_jacobians" if p["all_jacobians"] else "lin_history:differentiated_io")
+    ctx.nontriv(("chain_lin_history", p))  # members always have different inputs (forced) and two steps
+    ctx.sample({"oracle": "chain_lin_history", "back": p["back"], "ins": [sp["ins"] for sp in specs]})
+
+
+ORACLES.update({"exec_history": case_exec_history, "chain_lin_history": case_chain_lin_history})
